@@ -1,3 +1,184 @@
+/-
+  C11 model driver: replays the harness trace through the Lean model of readTlvStream /
+  StreamFace.Run (DIFF) and evaluates the specification — "the delivered frames are exactly the
+  blocks, in order, none lost / duplicated / split / merged, each as soon as it is complete" —
+  directly on the implementation's own output (SPEC).
+-/
 import NdnVerif.Driver.Common
--- stub: replaced by the C11 model driver
-def main : IO Unit := IO.println "DONE lines=0 histories=0 diffs=0 specs=0 skipped=0"
+import NdnVerif.C11.Model
+import NdnVerif.C11.Spec
+open Ndn Ndn.Driver Ndn.C11
+
+/-- value pattern shared with harness/c11 `Fill` -/
+def fillByte (seed i : Nat) : Nat :=
+  if seed = 0 then 0xfd else if seed = 1 then 0xff
+  else (seed * 131 + i * 7 + i / 256 * 13 + (i * i) % 251) % 256
+
+def fill (n seed : Nat) : Bytes := (List.range n).map (fillByte seed)
+
+def mkBlock (typ n seed : Nat) : Bytes := encTL typ ++ encTL n ++ fill n seed
+
+def fnv64 (b : Bytes) : UInt64 :=
+  b.foldl (fun h c => (h ^^^ c.toUInt64) * 0x100000001b3) 0xcbf29ce484222325
+
+def hex64 (x : UInt64) : String := String.ofList (Nat.toDigits 16 x.toNat)
+
+def digest (b : Bytes) : String := s!"{b.length}:{hex64 (fnv64 b)}"
+
+def framesText (fs : List Bytes) : String :=
+  if fs.isEmpty then "-" else ",".intercalate (fs.map digest)
+
+inductive Kind | fw | app | none
+  deriving DecidableEq
+
+structure DSt where
+  kind : Kind := .none
+  -- implementation model
+  stream : Bytes := []          -- bytes defined and not yet handed to Read
+  st : St := init               -- fw
+  appPending : Bytes := []      -- app
+  dead : Option String := none
+  -- specification state (depends only on ops and implementation outputs)
+  expect : List (Nat × String) := []   -- blocks defined and not yet delivered: (length, digest)
+  credit : Nat := 0                     -- bytes handed over and not yet part of a delivered frame
+  undelivered : Nat := 0                -- bytes defined and not yet handed over
+  specDead : Bool := false
+
+/-- evaluate the spec on one implementation output: frames delivered after `k` more bytes -/
+def specFrames (d : DSt) (k : Nat) (frames : List String) (atEof : Bool) : DSt × List SpecFail := Id.run do
+  let mut expect := d.expect
+  let mut credit := d.credit + k
+  let mut fails : List SpecFail := []
+  for f in frames do
+    match expect with
+    | [] =>
+      fails := fails ++ [⟨"exactly-the-blocks", "extra-frame", s!"frame {f} delivered but every block was already delivered"⟩]
+    | (len, dg) :: rest =>
+      if f != dg then
+        fails := fails ++ [⟨"exactly-the-blocks", "wrong-frame", s!"delivered {f}, next block is {dg}"⟩]
+        expect := []   -- framing is lost; report once
+      else
+        if credit < len then
+          fails := fails ++ [⟨"exactly-the-blocks", "early-frame", s!"frame {f} delivered before all its bytes were read"⟩]
+        credit := credit - len
+        expect := rest
+  -- promptness: a block whose bytes were all read must have been handed up
+  if fails.isEmpty then
+    match expect with
+    | (len, dg) :: _ =>
+      if credit ≥ len then
+        fails := fails ++ [⟨if atEof then "none-lost" else "prompt", "held-back", s!"block {dg} completely read ({credit} bytes pending) but not delivered"⟩]
+    | [] => pure ()
+  return ({ d with expect := expect, credit := credit, undelivered := d.undelivered - k }, fails)
+
+def parseFrames (s : String) : List String := if s == "-" then [] else s.splitOn ","
+
+/-- split "k=12 f=a,b ret=x" into fields -/
+def field (toks : List String) (key : String) : Option String :=
+  toks.findSome? fun t => if t.startsWith (key ++ "=") then some ((t.drop (key.length + 1)).toString) else none
+
+def stepC11 (d : DSt) (op : String) (got : String) : StepResult DSt :=
+  let crash : List SpecFail :=
+    if isCrash got || (got.splitOn " ret=PANIC").length > 1 then [⟨"no-crash", "crash", s!"{op}: {got}"⟩] else []
+  match op.splitOn " " with
+  | ["new", k] =>
+    let kind := if k == "fw" then Kind.fw else if k == "app" then Kind.app else Kind.none
+    if kind == .none then { st := {}, expected := some "bad-op" }
+    else { st := { kind := kind }, expected := some "ok", cov := [s!"new-{k}"] }
+  | ["blk", t, n, sd] =>
+    if d.kind == .none then { st := d, expected := some "skip" } else
+    match t.toNat?, n.toNat?, sd.toNat? with
+    | some t, some n, some sd =>
+      let b := mkBlock t n sd
+      let d' := { d with stream := d.stream ++ b, expect := d.expect ++ [(b.length, digest b)],
+                         undelivered := d.undelivered + b.length }
+      { st := d', expected := some "ok", spec := crash,
+        cov := [s!"blk-T{tlLen t}-L{tlLen n}"] ++ (if b.length = maxPkt then ["blk-maxsize"] else []) }
+    | _, _, _ => { st := d, expected := some "bad-op" }
+  | ["rd", n] =>
+    if d.kind == .none then { st := d, expected := some "skip" } else
+    match n.toNat? with
+    | none => { st := d, expected := some "bad-op" }
+    | some n =>
+      -- specification side, on the implementation's own answer
+      let toks := got.splitOn " "
+      let (dS, fails) :=
+        if d.specDead then (d, []) else
+        match field toks "k", field toks "f" with
+        | some ks, some fs => specFrames d (ks.toNat?.getD 0) (parseFrames fs) false
+        | _, _ => (d, [])
+      let fails := fails ++ (if got.startsWith "stall" then [⟨"no-stall", "stall", s!"{op}: reader starved: {got}"⟩] else [])
+      let fails := fails ++ (if (field toks "ret").isSome && !d.specDead then
+                               [⟨"no-abort", "early-return", s!"{op}: readTlvStream returned on a well-formed stream: {got}"⟩] else [])
+      let dS := { dS with specDead := d.specDead || (field toks "ret").isSome || got.startsWith "dead" || !crash.isEmpty }
+      -- model side
+      match d.dead with
+      | some r => { st := dS, expected := some s!"dead {r}", spec := crash ++ fails }
+      | none =>
+        let n' := min n d.stream.length
+        if n' = 0 then { st := dS, expected := some "skip", spec := crash ++ fails } else
+        match d.kind with
+        | .fw =>
+          if d.st.free = 0 then { st := dS, expected := some "stall k=0 f=-", spec := crash ++ fails, cov := ["rd-stall"] } else
+          let k := min n' d.st.free
+          let chunk := d.stream.take k
+          let r := onRead d.st chunk
+          let rest := r.1.unread
+          let cov := (if k < n' then ["rd-bounded-by-free"] else []) ++
+                     (if r.2.1.length ≥ 2 then ["rd-multi-frame"] else if r.2.1.length = 1 then ["rd-one-frame"] else ["rd-no-frame"]) ++
+                     (if rest.isEmpty then ["rest-empty"] else
+                       match decTL rest with
+                       | none => ["rest-inside-T"]
+                       | some (_, r1) => match decTL r1 with
+                         | none => ["rest-inside-L"]
+                         | some _ => ["rest-inside-value"]) ++
+                     (if r.1.tlvOff = 0 then ["compact"] else ["no-compact"]) ++
+                     (if k = 1 then ["rd-1byte"] else [])
+          let nt := !rest.isEmpty && (match decTL rest with | none => true | some (_, r1) => (decTL r1).isNone)
+          let base := s!"k={k} f={framesText r.2.1}"
+          let (exp, dead) : Option String × Option String := match r.2.2 with
+            | .more => (some base, none)
+            | .tooMuch => (some (base ++ " ret=err"), some "err")
+            | _ => (none, some "?")
+          { st := { dS with stream := d.stream.drop k, st := r.1, dead := dead }, expected := exp,
+            spec := crash ++ fails, cov := cov, nontrivial := nt }
+        | .app =>
+          let k := n'
+          let chunk := d.stream.take k
+          let r := appLoop (d.appPending ++ chunk)
+          let rest := r.2.1
+          let cov := (if r.1.length ≥ 2 then ["app-multi-frame"] else if r.1.length = 1 then ["app-one-frame"] else ["app-no-frame"]) ++
+                     (if rest.isEmpty then ["app-rest-empty"] else
+                       match decTL rest with
+                       | none => ["app-rest-inside-T"]
+                       | some (_, r1) => match decTL r1 with
+                         | none => ["app-rest-inside-L"]
+                         | some _ => ["app-rest-inside-value"])
+          let nt := !rest.isEmpty && (match decTL rest with | none => true | some (_, r1) => (decTL r1).isNone)
+          let (exp, dead) : Option String × Option String := match r.2.2 with
+            | .more => (some s!"k={k} f={framesText r.1}", none)
+            | _ => (none, some "?")
+          { st := { dS with stream := d.stream.drop k, appPending := rest, dead := dead }, expected := exp,
+            spec := crash ++ fails, cov := cov, nontrivial := nt }
+        | .none => { st := dS, expected := some "skip" }
+  | ["eof"] =>
+    if d.kind == .none then { st := d, expected := some "skip" } else
+    let toks := got.splitOn " "
+    let (dS, fails) :=
+      if d.specDead then (d, []) else
+      let frames := match field toks "f" with | some fs => parseFrames fs | none => []
+      let (dS, f1) := specFrames d 0 frames true
+      -- every block whose bytes were all handed over must have been delivered by now
+      let f2 : List SpecFail :=
+        if f1.isEmpty && dS.undelivered = 0 && !dS.expect.isEmpty then
+          [⟨"none-lost", "lost-at-eof", s!"{dS.expect.length} block(s) never delivered although every byte was read"⟩] else []
+      let f3 : List SpecFail :=
+        if !(got.startsWith "nil") && !isCrash got && !(got.startsWith "dead") then
+          [⟨"no-abort", "eof-error", s!"EOF on a well-formed stream reported as {got}"⟩] else []
+      (dS, f1 ++ f2 ++ f3)
+    match d.dead with
+    | some r => { st := { dS with specDead := true }, expected := some s!"dead {r}", spec := crash ++ fails }
+    | none => { st := { dS with dead := some "nil", specDead := true }, expected := some "nil", spec := crash ++ fails, cov := ["eof"] }
+  | _ => { st := d, expected := some "bad-op" }
+
+def main : IO Unit := Ndn.Driver.run ({} : DSt) stepC11
